@@ -25,6 +25,14 @@ DRV_ENV.update({
 })
 
 
+OUTPUT_LIMIT = 256 << 20
+
+
+def _limit_output():
+    import resource
+    resource.setrlimit(resource.RLIMIT_FSIZE, (OUTPUT_LIMIT, OUTPUT_LIMIT))
+
+
 def sha(s):
     if isinstance(s, str):
         s = s.encode()
@@ -50,15 +58,26 @@ def exec_runs(drv, runs, scratch, timeout=300):
             for rid, lines in pending:
                 f.write("\n".join(lines))
                 f.write("\n")
+        # the trace goes to a file with a size limit: a parser that answers every re-invocation with another yield while its
+        # outputs keep changing (no exact configuration repeat) would otherwise fill the harness' memory with trace lines
+        opath = path + ".out"
         try:
-            p = subprocess.run([drv, path], capture_output=True, timeout=timeout, env=DRV_ENV)
-            out = p.stdout.decode("latin-1")
+            with open(opath, "wb") as ofh:
+                p = subprocess.run([drv, path], stdout=ofh, stderr=subprocess.PIPE, timeout=timeout, env=DRV_ENV,
+                                   preexec_fn=_limit_output)
             err = p.stderr.decode("latin-1", "replace")
             rc = p.returncode
         except subprocess.TimeoutExpired as e:
-            out = (e.stdout or b"").decode("latin-1")
             err = "HARNESS-TIMEOUT"
             rc = -9
+        try:
+            with open(opath, "rb") as ofh:
+                out = ofh.read().decode("latin-1")
+            os.unlink(opath)
+        except OSError:
+            out = ""
+        if rc == -25:       # SIGXFSZ: the trace outgrew OUTPUT_LIMIT
+            err = "HARNESS-OUTPUT-FLOOD " + err[-500:]
         runs_p, order, cov = trace.parse(out)
         if cov:
             LAST_COV[0] = max(LAST_COV[0], cov[0])
@@ -74,6 +93,8 @@ def exec_runs(drv, runs, scratch, timeout=300):
                 results[rid] = (r, ("harness", "driver-exited-0-with-incomplete-run", err[-2000:]))
             elif rc == -9:
                 results[rid] = (r, ("harness", "driver-timeout", ""))
+            elif rc == -25:
+                results[rid] = (r, ("harness", "driver-output-flood (trace larger than %d MB)" % (OUTPUT_LIMIT >> 20), err[-300:]))
             else:
                 where, summary = trace.classify_crash(err)
                 if where is None:
